@@ -29,6 +29,7 @@ type Mutant struct {
 
 var Mutants = map[string][]Mutant{
 	"C01": {
+		{"Reverse flips the direction flag of the receiver only", "path_intersection.go", `s\.increasing, s\.other\.increasing = !s\.increasing, !s\.other\.increasing`, "s.increasing, s.other.increasing = !s.increasing, s.increasing", "E9.endpoint-pair"},
 		{"extra contours of a clipping element appended to the subject list", "path_intersection.go", `(\t\t\t\tqs\[i\] = split\[0\]\n\t\t\t\t)qs = append\(qs, split\[1:\]\.\.\.\)`, "${1}ps = append(ps, split[1:]...)", "E9.operand-lists-separate"},
 		{"depth plus one computed before the depth is read", "path_intersection.go", `(?s)(\t\t\twindings := 0\n)(\t\t\tprev := cur\.prev\n.*?)\t\t\tcur\.resultWindings = windings\n\t\t\tif !first\.open \{\n\t\t\t\t// we go to the right/top\n\t\t\t\tcur\.resultWindings\+\+\n\t\t\t\}\n`, "${1}\t\t\tabove := windings\n\t\t\tif !cur.open {\n\t\t\t\tabove++\n\t\t\t}\n${2}\t\t\tcur.resultWindings = above\n", "E9.depth-derived-after-read"},
 		{"neighbours of a leaving segment tested only across operands", "path_intersection.go", `(next := n\.Next\(\)\n\t\t\t\tif prev != nil && next != nil) \{`, "$1 && (op == opSettle || prev.clipping != next.clipping) {", "E9.adjacent-always-tested"},
